@@ -226,7 +226,7 @@ class Translator:
         self.start_rule = pm.group(1)
         self.start_kind = self.kind(pm.group(2))
         self.parts = []
-        for mm in re.finditer(r'pub fn parse_(\w+)\(mut self, diags: &mut Vec<Diagnostic>\) -> Cst<\'a> \{\s*self\.end_of_input = Token::(\w+);\s*self\.parse_rule\(\|parser, diags\| parser\.rule_(\w+)\(diags\), diags, Rule::(\w+)\)', t):
+        for mm in re.finditer(r'pub fn parse_(\w+)\(mut self, diags: &mut Vec<Diagnostic>\) -> Cst<\'a> \{\s*self\.end_of_input = Token::(\w+);\s*self\.parse_rule\(\|parser, diags\| \{ parser\.rule_(\w+)\(diags\); \}, diags, Rule::(\w+)\)', t):
             if mm.group(1) != mm.group(3):
                 raise TranslateError('part name mismatch')
             self.parts.append((mm.group(1), self.tok(mm.group(2)), self.kind(mm.group(4))))
